@@ -615,7 +615,7 @@ def run(ck):
         "whole-CPU must-hold stream: branch-free programs (no pipeline flush); with flushes the invariant is FALSE of the code (Props.C06.not_Full_C06_step, "
         "flush_read_of_modified_negative_counter; .work/reports/C06-defect-1.md, C06-defect-2.md) and is checked modulo exactly those two triggers",
         "snapshots are taken at Context.VerifTick, i.e. between cycles; after a Go panic only the lock counters of the post-mortem state are judged",
-        "runs that panic, hang (tick budget) or touch wild addresses are recorded and skipped after their last snapshot (their cause is another property's concern)",
+        "runs that panic, hang (tick budget), stall (protocol snapshot unchanged for 16 memory latencies) or touch wild addresses are recorded and skipped after their last snapshot (their cause is another property's concern)",
         "addresses inside a line and the 1 KB / 16-line geometry are taken from the code; |address| + 64 < 2^31"]
     if not built:
         ck.notes.append("Props/C06 did not build")
@@ -651,4 +651,6 @@ def replay(ck, path):
                           same_clause=bool(clause and clause in bad[1] + bad[2])))
     else:
         print("the invariant holds at every cycle of this case on this tree")
+    import shutil
+    shutil.rmtree(stream_dir(ck), ignore_errors=True)   # the replay file is self-contained
     ck.finish("proof")
